@@ -2,6 +2,7 @@ CONSTANTS
   T = {1,2,3}
   Configs <- cOwn3
   Variant = "load"
+  VariantE = "load"
   OrdCloneInc = "Relaxed"
   OrdDropDec = "Release"
   OrdDropFence = "Acquire"
